@@ -116,8 +116,15 @@ def cases(rng, tier):
         body.insert(rng.randrange(len(body) + 1), bad)
         lines += body + ["@compute @workgroup_size(1) fn main() {}"]
         out.append({"wgsl": "\n".join(lines) + "\n", "family": "unsupported_resource", "opts": {}, "truth": truth_of(decls)})
+    # shaders generated one after the other whose groups have the same variable names, types and order but different @binding
+    # indices (a camera / light / material group shared by many shaders): each module carries ITS indices
+    for rep in range({"quick": 2, "search": 3, "thorough": 6}[tier]):
+        shape = [("camera", 1), ("light", 1), ("albedo", 6), ("smp", 10)]
+        for idxs in ([0, 1, 2, 3], [4, 2, 9, 0], [1, 0, 3, 7], [0, 1, 2, 3]):
+            decls = [(0, b, n, k) for (n, k), b in zip(shape[:2], idxs[:2])] + [(1, b, n, k) for (n, k), b in zip(shape[2:], idxs[2:])]
+            out.append({"wgsl": render(decls, rng), "family": "same_names_other_indices", "opts": {}, "truth": truth_of(decls)})
     # the special families first: they must be among the modules that are compiled and run on the shim
-    out.sort(key=lambda c: 0 if c["family"] in ("lookalike_groups", "many_groups") else 1)
+    out.sort(key=lambda c: 0 if c["family"] in ("lookalike_groups", "many_groups", "same_names_other_indices") else 1)
     return out
 
 
